@@ -289,6 +289,13 @@ def lw(ctx):
                                 some = [b2 for v, b2 in sw['targets'] if v == '1']
                                 if some:
                                     start = some[0]
+                            if start == bb:
+                                # `pop_front()?`, a named temporary, `if let Some(x) = ..` behind a move: the normalised test of the result
+                                from .ordq import result_edges, edge_for
+                                e_ = result_edges(fn, bb)
+                                some_ = edge_for(e_, 'core::option::Option', 'Some') if e_ else None
+                                if some_ is not None:
+                                    start = some_
                         enabling.append((cf, m, start, len(fn.blocks[bb]['stmts']) if start == bb else 0))
             if not enabling:
                 continue
